@@ -1730,6 +1730,40 @@ def search(ctx, deep=False):
                        f"vs the plain isotropic model at independently embedded points, vs a freshly built object, and 'other unit => same result'"
         hist_summary += f"; {nh} live model objects {h_cfg} walked through setter histories {h_ops} with uses before every change: state vs independent " \
                        f"bookkeeping, isometrize vs sphere point / block-diagonal map, pure time offsets, round trips after every step; pipelines after the history {h_pipe}"
+    # ---------- S17: space-time grids: generate_st_grid (both mesh types) against an independent product, time last; a field of a
+    #             metric temporal model on the generated points equals the structured evaluation on (axes..., time)
+    for t in range(ctx.scale(12, 100)):
+        sd = int(rng.randint(1, 4))
+        tm = np.sort(rng.uniform(0, 10, int(rng.randint(1, 5))))
+        kind = "structured" if t % 2 else "unstructured"
+        try:
+            if kind == "structured":
+                axes = [np.sort(rng.uniform(-5, 5, int(rng.randint(1, 4)))) for _ in range(sd)]
+                got = np.asarray(gs.generate_st_grid(axes, tm, mesh_type="structured"), dtype=float)
+                grid = np.array(np.meshgrid(*axes, tm, indexing="ij")).reshape(sd + 1, -1)
+                arg = tuple(axes)
+            else:
+                pts = rng.uniform(-5, 5, size=(sd, int(rng.randint(1, 6))))
+                got = np.asarray(gs.generate_st_grid(pts, tm), dtype=float)
+                grid = np.array([[pts[d, i] for i in range(pts.shape[1]) for _ in tm] for d in range(sd)] +
+                                [[x for _ in range(pts.shape[1]) for x in tm]])
+                arg = pts
+            ev += 1
+            if got.shape != grid.shape or not np.array_equal(got, grid):
+                report("st-grid:" + kind, "generate_st_grid is not the product of the spatial points / grid with the time axis (space major, time last)",
+                       dict(spatial_dim=sd, mesh_type=kind, time=tm.tolist(), pos=[np.asarray(a).tolist() for a in arg]))
+                continue
+            mdl = gs.Exponential(spatial_dim=sd, temporal=True, len_scale=2.0, anis=[float(a) for a in rng.choice([0.5, 1.0, 2.0], size=sd)])
+            srf = gs.SRF(mdl, seed=int(rng.randint(1, 10 ** 6)), mode_no=24)
+            f1 = np.asarray(srf(got), dtype=float)
+            if kind == "structured":
+                f2 = np.asarray(srf.structured(tuple(axes) + (tm,)), dtype=float).reshape(-1)
+                ev += 1
+                if f1.shape != f2.shape or not np.allclose(f1, f2, rtol=0, atol=1e-12):
+                    report("st-grid:field", "a temporal model's field on generate_st_grid(..., 'structured') differs from the structured evaluation on (axes..., time)",
+                           dict(spatial_dim=sd, time=tm.tolist(), axes=[a.tolist() for a in axes]))
+        except Exception as ex:
+            report("st-grid:exception", f"{type(ex).__name__}: {ex}", dict(spatial_dim=sd, mesh_type=kind))
     summary = (f"{ev} checks on the real API: D16 directed case; per random configuration (3-D-valid models x geo_scale in radian/degree/km/random, "
                "lat-lon incl. poles, date line, |lon| up to 725): isometrize on the sphere and round trips; captured kriging matrix vs cov_yadrenko of an "
                "independent great-circle distance and vs the 3-D model; simple kriging vs independent solve; rotation invariance (random SO(3) + full turns); "
